@@ -40,9 +40,16 @@ def gen_case(r, shape):
         else:
             doc[r.choice(["big", "n"])] = r.choice(big if name == "has_factor" else small)
         leaf = leaf.replace(kwargs={"value": r.choice(small if name == "has_factor" else big)})
+    if name in ("in_range", "not_in_range") and pre is None and kind == "value" and r.pct() < 6:
+        # bounds up to 2**64 - 1 apart (membership of an INTEGER in a range is arithmetic, however wide it is);
+        # the document holds integers only - for any other item the library walks the range
+        big = [-(2**63), 2**63 - 1, -(2**63) + 1, 2**63 - 2, 0, 5, -(2**62)]  # (all within 64 bit)
+        lo, hi = sorted([r.choice(big), r.choice(big)])
+        items = [r.choice([5, 0, -1, 2**63 - 1, -(2**63), 2**63 - 2, 2**62, True, 12]) for _ in range(r.between(1, 4))]
+        return Leaf(kind, pre, name, (), {"lower": lo, "upper": hi}), (items if r.coin() else {f"k{i}": v for i, v in enumerate(items)})
     if name == "items_contain" and pre is None and kind == "value" and r.pct() < 10:
         # an expected key that is spelled like a parameter name somewhere inside the library, present in an item
-        kname = r.choice(["trial_dict", "value", "datum", "kwargs", "args", "data", "key"])
+        kname = r.choice(["trial_dict", "value", "datum", "kwargs", "args", "data", "key"] + build.param_names())
         v = G.scalar(r)
         item = {kname: v, "other": 1} if r.coin() else {kname: v}
         if isinstance(doc, list):
